@@ -26,6 +26,7 @@ var (
 	tier  = flag.String("tier", "quick", "quick|thorough")
 	mode  = flag.String("mode", "c06", "c05|c06|c07")
 	sched = flag.String("sched", "", "schedules (jsonl) from TLC's state graph")
+	wide  = flag.Bool("wide", false, "timeouts of 20 and 30 units instead of 2 and 3 (scans a small fraction of a timeout before a deadline); random histories only")
 )
 
 type nodeState struct {
@@ -43,6 +44,9 @@ type sys struct {
 
 func newSys(w *vt.Writer, tag string) *sys {
 	p := agg.New(2, 3, 1, 1)
+	if *wide {
+		p = agg.New(20, 30, 1, 1)
+	}
 	w.Reset(vt.Ev{"tag": tag})
 	return &sys{w: w, p: p, last: map[string]*nodeState{}, start: map[string]int{}}
 }
@@ -335,6 +339,9 @@ func main() {
 	if thorough {
 		n = 4000
 	}
+	if *wide {
+		n /= 3
+	}
 	keys := []string{"k1", "k2", "k3", "k4", "k5", "k6"}
 	kinds := []string{"intra", "toext", "src", "dst", "deny", "reject"}
 	for i := 0; i < n; i++ {
@@ -411,7 +418,11 @@ func main() {
 					kd := flowKind[k][r.Intn(len(flowKind[k]))]
 					s.ingest(s.mkRec(r, k, kd, r.Intn(10) == 0, false))
 				case x < 70:
-					s.advance(1 + r.Intn(2))
+					if *wide {
+						s.advance([]int{1, 2, 9, 10, 17, 18, 19, 20, 28, 29}[r.Intn(10)])
+					} else {
+						s.advance(1 + r.Intn(2))
+					}
 				default:
 					fail := []string{}
 					if *mode == "c06" && r.Intn(2) == 0 {
